@@ -952,6 +952,8 @@ def evaluate(t, env, memo=None):
             r = hex(evaluate(t.args[0], env, memo))
         elif op == "chr":
             r = chr(evaluate(t.args[0], env, memo))
+        elif op == "ord":
+            r = ord(evaluate(t.args[0], env, memo))
         elif op == "int" and len(t.args) == 1:
             r = int(evaluate(t.args[0], env, memo))
         else:
